@@ -1081,6 +1081,12 @@ def contract_compressed_all_paths(mk, geom, chi, opt):
     if n > 4:
         paths = paths[:: max(1, len(paths) // 12)][:12]
     kw = dict(CC_OPTS[opt])
+    if mk.sym and geom in ("chord4", "full4") and chi == 2:
+        # rank-2 compressions: the default absorb='both' splits sqrt(s) to both sides (2 x 2 SVD with square
+        # roots: certificates out of reach); the symbolic run absorbs to one side (QR only), the numeric run
+        # takes the option as it is
+        kw["compress_opts"] = dict(kw.get("compress_opts") or {}, absorb=(kw.get("compress_opts") or {}).get("absorb", "left"))
+        mk.note("symbolic run with compress_opts absorb='left'")
     nexact = 0
     for p in each(mk, "path", paths):
         w = Watch()
